@@ -37,6 +37,7 @@ COMPONENTS = {
         "src/node core.go, node_rpc.go (all four RPC handlers), node.go gossip/pull/push/sync/monologue/checkSuspend/Suspend/Shutdown/fastForward/join/Leave",
         "src/peers, src/common, src/crypto/keys (verification real, signing RFC 6979 through the H1 seam)",
         "src/net command structs + JSON encoding of every request/response",
+        "src/proxy/inmem.InmemProxy in front of half of the simulated applications (cluster engines); src/proxy/socket app+babble sides and net/rpc/jsonrpc over in-memory pipes (proxy engine, C20); NetworkTransport.handleConn for raw bytes (C08)",
     ],
     "stub": [
         "Node.Run/babble loop, controlTimer, random peer choice (the scheduler decides who ticks and with whom)",
